@@ -225,6 +225,8 @@ def manifest_text(pl, mp, written):
             if e.get('bad_hash_name') in cks:
                 k = e['bad_hash_name']
                 cks[k] = ('0' if cks[k][0] != '0' else '1') + cks[k][1:]
+            # digests under names this interpreter cannot compute (WHIRLPOOL without the OpenSSL legacy provider, unknown names)
+            cks.update(e.get('fake_cks', {}))
             path = e['path']
             if t == 'AUX':
                 path = path[len('files/'):]
